@@ -302,6 +302,15 @@ def fits (st : Store) (p : List Sec) : Bool :=
     | some .padding => s.pad
     | none => false
 
+/-- The store is what the allocator leaves for these files: a `PaddingFile` for every padding
+file, a data file of exactly the metainfo length for every other. -/
+def storeMatches (files : List FileEnt) (st : Store) : Bool :=
+  files.length == st.length &&
+  (files.zip st).all fun x =>
+    match x.2 with
+    | .padding => x.1.pad
+    | .data bs => !x.1.pad && bs.length == x.1.len
+
 /-- Oracle for one `ReadAt` inside the piece. -/
 def readOK (st : Store) (p : List Sec) (off n : Nat) (r : ROut) : Bool :=
   r == .ok (((pieceContent st p).drop off).take n)
@@ -386,5 +395,43 @@ def namesOK (files : List FileEnt) : Bool :=
 
 /-- The sections of pieces `[b, e)`. -/
 def secsOfRange (ps : List Piece) (b e : Nat) : List Sec := allSecs ((ps.drop b).take (e - b))
+
+/-! ## M-GEO (part 4) — creation hashing order (`metainfo.NewInfoBytes`) and `verifier.Run`
+
+SHA-1 is an uninterpreted parameter `H : List Nat → Nat`. -/
+
+/-- The `visit` loop of `NewInfoBytes` for one file `f`: `io.ReadFull(f, buf[offset:])` until the
+file ends; whenever the buffer is full it is hashed and `offset = 0`.  `buf` is the filled part
+of the buffer, `hs` the piece hashes so far (newest first).  Fuel `f.length + 2`. -/
+def hashFile (H : List Nat → Nat) (pl : Nat) : Nat → List Nat → List Nat → List Nat → List Nat × List Nat
+  | 0, _, buf, hs => (buf, hs)
+  | fuel + 1, f, buf, hs =>
+    let n := min f.length (pl - buf.length)
+    let buf' := buf ++ f.take n
+    if n < pl - buf.length then (buf', hs)                  -- io.EOF / io.ErrUnexpectedEOF: next file
+    else hashFile H pl fuel (f.drop n) [] (H buf' :: hs)     -- buffer finished: hash it
+
+/-- The piece table computed by `NewInfoBytes` for the files (contents in walk order). -/
+def createHashes (H : List Nat → Nat) (pl : Nat) (files : List (List Nat)) : List Nat :=
+  let a := files.foldl (fun (a : List Nat × List Nat) f => hashFile H pl (f.length + 2) f a.1 a.2) ([], [])
+  (if a.1.length > 0 then H a.1 :: a.2 else a.2).reverse      -- "hash remaining buffer"
+
+/-- `verifier.Run`: per piece `ReadAt(buf[:p.Length], 0)` then `VerifyHash`.  `none` = the run
+stopped with `v.Error` (short read) or panicked. -/
+def verifyBits (H : List Nat → Nat) (st : Store) : List Piece → List Nat → Option (List Bool)
+  | [], _ => some []
+  | p :: ps, hs =>
+    match readAt st p.secs 0 p.len with
+    | .ok bs =>
+      match verifyBits H st ps hs.tail with
+      | some r => some ((hs.head? == some (H bs)) :: r)
+      | none => none
+    | _ => none
+
+/-- The storage after allocation on the directory the torrent was created from, for files given
+as `(entry, content)`: a data file holds its content, a file that `NewInfo` marks as padding is a
+`PaddingFile` (it is never opened). -/
+def storeOf (fs : List (FileEnt × List Nat)) : Store :=
+  fs.map fun x => if x.1.pad then .padding else .data x.2
 
 end Rain.Geometry
